@@ -95,10 +95,12 @@ def run(pid, tier, seed):
         lines = [c['line'] for c in cases]
         for prof in getattr(mod, 'PROFILES', ['debug']):
             impl_out = ctx.impl(lines, prof)
-            model_out = ctx.model(lines) if model_ok else [None] * len(lines)
+            # oracle inputs of the model (e.g. the implementation's sort order) come from the implementation's answer
+            mlines = [mod.model_line(c, io) for c, io in zip(cases, impl_out)] if hasattr(mod, 'model_line') else lines
+            model_out = ctx.model(mlines) if model_ok else [None] * len(lines)
             for c, io, mo in zip(cases, impl_out, model_out):
                 cats[c['cat']] = cats.get(c['cat'], 0) + 1
-                exp_impl = io
+                exp_impl = mod.canon_impl(io) if hasattr(mod, 'canon_impl') else io
                 if mo is not None:
                     n_cmp += 1
                     mo2 = mod.canon_model(mo, prof) if hasattr(mod, 'canon_model') else mo
